@@ -102,6 +102,19 @@ func mutate(t *rapid.T, s string) string {
 			j := rapid.IntRange(0, len(toks)-1).Draw(t, "j")
 			toks[j].Text = rapid.SampledFrom(lexemes).Draw(t, "lex")
 			s = corpus.Join(toks)
+		case m == 7 && len(toks) > 0 && rapid.Bool().Draw(t, "hugeInPlace"): // a number of the query becomes one that no int64 / float64 holds
+			var nums []int
+			for j, tk := range toks {
+				switch tk.Name {
+				case "DecimalInteger", "HexInteger", "OctalInteger", "RegularDecimalReal", "ExponentDecimalReal":
+					nums = append(nums, j)
+				}
+			}
+			if len(nums) == 0 {
+				continue
+			}
+			toks[nums[rapid.IntRange(0, len(nums)-1).Draw(t, "num")]].Text = rapid.SampledFrom([]string{"99999999999999999999", "9223372036854775808", "18446744073709551616", "1e999", "0xffffffffffffffffffffff", "07777777777777777777777777", "1.5", "0"}).Draw(t, "hugeval")
+			s = corpus.Join(toks)
 		case m == 7: // huge numeric literal
 			pos := rapid.IntRange(0, len(s)).Draw(t, "pos")
 			s = s[:pos] + rapid.SampledFrom([]string{"99999999999999999999999999", "1e999", "0xffffffffffffffffffffff", "-9223372036854775809", "1.7976931348623157e309", "07777777777777777777777777"}).Draw(t, "huge") + s[pos:]
